@@ -346,7 +346,7 @@ def proof_step(ctx: Ctx):
 SHARD_HDR = "From Coq Require Import List NArith ZArith Bool.\nImport ListNotations.\n"
 
 
-def coq_eval_shards(ctx: Ctx, name, requires, case_type, cases, mismatch_fn, chunk=400, timeout=600):
+def coq_eval_shards(ctx: Ctx, name, requires, case_type, cases, mismatch_fn, chunk=400, timeout=600, preamble=""):
     """cases: list of Gallina terms of type `case_type`; `mismatch_fn : list case_type -> list nat`
     returns the indices on which model and implementation differ.  Returns global indices."""
     if not cases:
@@ -358,7 +358,7 @@ def coq_eval_shards(ctx: Ctx, name, requires, case_type, cases, mismatch_fn, chu
         part = cases[k:k + chunk]
         f = d / f"S{k // chunk}.v"
         f.write_text(
-            SHARD_HDR + f"From V Require Import {requires}.\n"
+            SHARD_HDR + f"From V Require Import {requires}.\n" + preamble
             + f"Definition cases : list ({case_type}) :=\n  [ " + ";\n    ".join(part) + " ].\n"
             + f"Eval vm_compute in (length cases, {mismatch_fn} cases).\n")
         files.append((k, f, len(part)))
